@@ -341,13 +341,237 @@ public class A
 }
 
 
+# hosts for the option sweep: a token that a newline / position option moves sits next to a comment and a blank line
+NL_HOSTS = {
+    'C': b"""#include <stdio.h>
+
+static int limit = 10;
+
+int check(int a)   // trailing
+{
+
+   int x = a;
+
+   if (a > limit) // over the limit
+   {
+
+      x++;
+   }
+   else           // otherwise
+   {
+
+      x--;
+   }
+
+   for (a = 0; a < 3; a++) /* loop */
+   {
+
+      x += a;
+   }
+
+   while (x > 9) // shrink
+   {
+
+      x--;
+   }
+
+   do // once
+   {
+
+      x++;
+   }
+   while (x < 3); // tail
+
+   switch (x) // sel
+   {
+
+   case 1: // one
+
+      x = 2;
+      break;
+
+   default:
+
+      break;
+   }
+
+   x = a +
+
+       limit
+       +
+
+       3;
+
+   return(x);
+}
+
+struct pt // tag
+{
+
+   int a;
+};
+
+enum col // tag
+{
+
+   RED,
+
+   GREEN
+};
+
+int main(void)
+{
+   return(check(3)
+          +
+
+          check(4));
+}
+""",
+    'CPP': b"""#include <vector>
+
+namespace outer // ns
+{
+
+class Base
+{
+public:
+   virtual ~Base() {}
+};
+
+class Derived
+:
+
+   public Base
+{
+public:
+   Derived()
+   :
+
+      a_(1)
+   ,
+
+      b_(2)
+   {
+
+      a_++;
+   }
+
+   int get() const // getter
+   {
+
+      return a_;
+   }
+
+private:
+   int a_;
+
+   int b_;
+};
+
+template<typename T> // tpl
+T pick(T a, T b)
+{
+
+   if (a < b) // less
+   {
+
+      return b;
+   }
+
+   try // risky
+   {
+
+      a = b;
+   }
+   catch (...) // all
+   {
+
+      throw;
+   }
+
+   return a
+          ||
+
+          b;
+}
+
+enum class E : int // scoped
+{
+
+   A,
+
+   B
+};
+
+}
+""",
+}
+
+
+def nl_units():
+    """Small hosts, one construct each, so that the move made by the option under test is the only change of its pass (a second change
+    makes uncrustify run the newline passes again, which can repair what the first pass left behind)."""
+    C = {
+        'if': 'if (a > limit) // over the limit\n   {\n\n      x++;\n   }',
+        'if-2': 'if (a > limit) // over the limit\n   {\n\n\n      x++;\n   }',
+        'else': 'if (a)\n   {\n      x++;\n   }\n   else           // otherwise\n   {\n\n      x--;\n   }',
+        'brace-else': 'if (a)\n   {\n      x++;\n   } // done\n\n   else\n   {\n      x--;\n   }',
+        'elseif': 'if (a)\n   {\n      x++;\n   }\n   else if (x) /* second */\n   {\n\n      x--;\n   }',
+        'for': 'for (a = 0; a < 3; a++) /* loop */\n   {\n\n      x += a;\n   }',
+        'while': 'while (x > 9) // shrink\n   {\n\n      x--;\n   }',
+        'do': 'do // once\n   {\n\n      x++;\n   }\n   while (x < 3); // tail',
+        'do-while': 'do\n   {\n      x++;\n   } // body\n\n   while (x < 3);',
+        'switch': 'switch (x) // sel\n   {\n\n   case 1: // one\n\n      x = 2;\n      break;\n\n   default:\n\n      break;\n   }',
+        'case-brace': 'switch (x)\n   {\n   case 1: // one\n   {\n\n      x = 2;\n      break;\n   }\n   }',
+        'arith': 'x = a +\n\n       limit\n       +\n\n       3;',
+        'bool': 'x = a &&\n\n       limit\n       ||\n\n       3;',
+        'assign': 'x\n\n      =\n\n      a;',
+        'comma': 'x = f2(a,\n\n          limit\n          ,\n\n          3);',
+        'cond': 'x = a ?\n\n       limit\n       :\n\n       3;',
+        'return': 'if (a) // early\n   {\n\n      return(1);\n   }',
+        'bare': '{ // block\n\n      x++;\n   }',
+    }
+    out = []
+    for n, body in sorted(C.items()):
+        for lang in ('C', 'CPP'):
+            out.append(('%s-%s' % (lang.lower(), n), lang, ('static int limit = 10;\nint f2(int a, int b, int c);\n\nint check(int a)\n{\n   int x = a;\n\n   %s\n   return(x);\n}\n' % body).encode()))
+    T = {
+        'fdef': 'int check(int a) // trailing\n{\n\n   return(a);\n}\n',
+        'struct': 'struct pt // tag\n{\n\n   int a;\n};\n',
+        'enum': 'enum col // tag\n{\n\n   RED,\n\n   GREEN\n};\n',
+        'union': 'union u // tag\n{\n\n   int a;\n};\n',
+    }
+    for n, text in sorted(T.items()):
+        for lang in ('C', 'CPP'):
+            out.append(('%s-%s' % (lang.lower(), n), lang, text.encode()))
+    X = {
+        'class-colon': 'class Base {};\nclass Derived\n:\n\n   public Base\n{\npublic:\n   int value;\n};\n',
+        'class-colon-trail': 'class Base {};\nclass Derived :\n\n   public Base\n{\npublic:\n   int value;\n};\n',
+        'class-comma': 'class A {};\nclass B {};\nclass Derived : public A\n   ,\n\n   public B\n{\npublic:\n   int value;\n};\n',
+        'ctor-colon': 'class K\n{\npublic:\n   K()\n   :\n\n      a_(1)\n   ,\n\n      b_(2)\n   {\n\n      a_++;\n   }\n   int a_;\n   int b_;\n};\n',
+        'class': 'class K // tag\n{\n\npublic:\n\n   int a;\n};\n',
+        'namespace': 'namespace outer // ns\n{\n\nint v;\n}\n',
+        'template': 'template<typename T> // tpl\n\nT pick(T a, T b)\n{\n\n   return a;\n}\n',
+        'try': 'void g();\nvoid f()\n{\n   try // risky\n   {\n\n      g();\n   }\n   catch (...) // all\n   {\n\n      throw;\n   }\n}\n',
+        'lambda': 'int f(int a)\n{\n   auto l = [&](int z) // lam\n   {\n\n      return z + a;\n   };\n   return l(1);\n}\n',
+        'enum-class': 'enum class E : int // scoped\n{\n\n   A,\n\n   B\n};\n',
+        'using': 'namespace n1 { int v; }\nusing\n\n   n1::v;\n',
+    }
+    for n, text in sorted(X.items()):
+        out.append(('cpp-%s' % n, 'CPP', text.encode()))
+    return out
+
+
+NL_UNITS = {n: (l, t) for n, l, t in nl_units()}
+
+
 def usable(x):
     return not (b'INDENT-O' in x or b'asm' in x or b'\x00' in x or x[:2] in (b'\xff\xfe', b'\xfe\xff'))
 
 
 def _case(t):
     cid, rel, lang, variant, assign = t
-    x = EAT_HOSTS[rel[5:]] if rel.startswith('host:') else NL.sub(b'\n', corpus.read(rel))
+    x = EAT_HOSTS[rel[5:]] if rel.startswith('host:') else NL_HOSTS[rel[7:]] if rel.startswith('nlhost:') else NL_UNITS[rel[7:]][1] if rel.startswith('nlunit:') else NL.sub(b'\n', corpus.read(rel))
     if not usable(x):
         return dict(cid=cid, status='skipped')
     if not tokoracle.well_lexed(lex.lex(x, lang)):
@@ -456,6 +680,22 @@ def check(ctx):
                 for rel, lang in fixed_rng(PROP, 'eatfiles:' + o.name).sample(files, 12):
                     a = {'eat_blanks_after_open_brace': 'true', 'eat_blanks_before_close_brace': 'true', o.name: val}
                     tasks.append(('eatsweep:%s=%s:%s' % (o.name, val, rel), rel, lang, 1, a))
+    # every newline add/remove option and every position option, one at a time at every value, with nl_max and eat_blanks_* on, over hosts
+    # where the token the option moves sits next to a comment and a blank line
+    movers = [o for o in opts if o.cls == 'whitespace' and ((o.name.startswith('nl_') and o.type in ('iarf', 'bool') and o.name not in OWN)
+                                                             or o.name.startswith('pos_'))]
+    ctx.count('mover_options', len(movers))
+    for o in movers:
+        for val in registry.values_for(o):
+            if str(val).lower() == str(o.default).lower() or cfggen.is_slow(o.name, val):
+                continue
+            for u in sorted(NL_UNITS):
+                a = {'nl_max': '2', 'eat_blanks_after_open_brace': 'true', 'eat_blanks_before_close_brace': 'true', o.name: str(val)}
+                tasks.append(('movers:%s=%s:2:nlunit:%s' % (o.name, val, u), 'nlunit:' + u, NL_UNITS[u][0], 0, a))
+            for h in sorted(NL_HOSTS):
+                for N in ('2', '1') if not quick else ('2',):
+                    a = {'nl_max': N, 'eat_blanks_after_open_brace': 'true', 'eat_blanks_before_close_brace': 'true', o.name: str(val)}
+                    tasks.append(('movers:%s=%s:%s:nlhost:%s' % (o.name, val, N, h), 'nlhost:' + h, h, 0, a))
     U = 90000
     ctx.extra['universe'] = U
     for i in sr.sample(range(U), 12000 if quick else U):
